@@ -8,6 +8,7 @@ import (
 	"fmt"
 	"go/token"
 	"go/types"
+	"os"
 	"strings"
 
 	"golang.org/x/tools/go/ssa"
@@ -41,6 +42,9 @@ func sameVal(a, b ssa.Value) bool {
 	case *ssa.Field:
 		y, ok := b.(*ssa.Field)
 		return ok && x.Field == y.Field && sameVal(x.X, y.X)
+	case *ssa.IndexAddr:
+		y, ok := b.(*ssa.IndexAddr)
+		return ok && sameVal(x.X, y.X) && sameVal(x.Index, y.Index)
 	case *ssa.BinOp:
 		y, ok := b.(*ssa.BinOp)
 		return ok && x.Op == y.Op && sameVal(x.X, y.X) && sameVal(x.Y, y.Y)
@@ -266,8 +270,16 @@ func shapeD(v ssa.Value, d int) string {
 	case *ssa.ChangeType:
 		return shapeD(x.X, d+1)
 	case *ssa.IndexAddr:
+		if d > 0 && shapeD(x.X, d+1) == "_" {
+			// an element of a LOCAL slice read inside a larger expression: which element it is does not matter to a
+			// belief about "an element of that slice" (that the read itself is in range is an obligation of its own)
+			return "&_[_]"
+		}
 		return "&" + shapeD(x.X, d+1) + "[" + shapeD(x.Index, d+1) + "]"
 	case *ssa.Index:
+		if d > 0 && shapeD(x.X, d+1) == "_" {
+			return "_[_]"
+		}
 		return shapeD(x.X, d+1) + "[" + shapeD(x.Index, d+1) + "]"
 	case *ssa.Lookup:
 		return shapeD(x.X, d+1) + "[" + shapeD(x.Index, d+1) + "]"
@@ -461,8 +473,8 @@ func (b *bctx) holds(use ssa.Instruction, pred EdgePred, exprs ...ssa.Value) boo
 	}
 	for _, al := range allocRoots(exprs...) {
 		for _, st := range storesToCell(al) {
-			if st.Parent() != b.fn {
-				return false
+			if st.Parent() != b.fn && !(isTransparent(st.Parent()) && st.Parent() == use.Parent()) {
+				return false // (a store in another function; a helper the code was moved into is judged like the function itself)
 			}
 			if !guardedBy(use, st, pred) {
 				return false
@@ -815,7 +827,13 @@ func (b *bctx) lt(v, X ssa.Value, use ssa.Instruction) bool {
 		b.ltVisiting[x] = true
 		defer delete(b.ltVisiting, x)
 		for i, e := range x.Edges {
+			if edgeExcludedByFlag(x, i, use) {
+				continue
+			}
 			if !b.lt(e, X, lastInstr(x.Block().Preds[i])) {
+				if os.Getenv("RTDEBUG") != "" {
+					fmt.Fprintf(os.Stderr, "lt phi %s edge %d (%s) fails at use %v\n", x.Name(), i, e.Name(), use)
+				}
 				return false
 			}
 		}
@@ -824,6 +842,56 @@ func (b *bctx) lt(v, X ssa.Value, use ssa.Instruction) bool {
 		return b.lt(x.X, X, use)
 	}
 	return false
+}
+
+// edgeExcludedByFlag: the merged value x is used at `use` under a test of a boolean FLAG merged in the same block
+// (`ok := true; for … { if bad { ok = false; break } }; if ok { use(x) }`): when no path that ENTERS x's block through
+// incoming edge i reaches the use — the flag test right there, whose outcome is a constant on that edge, leads
+// elsewhere — that edge cannot be the one the use is reached through.
+func edgeExcludedByFlag(x *ssa.Phi, i int, use ssa.Instruction) bool {
+	if use == nil || !condIsOwnPhi(x.Block()) || use.Block() == x.Block() {
+		return false
+	}
+	blk := x.Block()
+	// a later visit of the block (a loop) re-assigns x: only claim the exclusion when the use cannot come back to it
+	if reachableFrom(use.Block(), blk) {
+		return false
+	}
+	type bp struct{ b, pred *ssa.BasicBlock }
+	seen := map[bp]bool{}
+	work := []bp{{blk, blk.Preds[i]}}
+	for len(work) > 0 {
+		w := work[len(work)-1]
+		work = work[:len(work)-1]
+		for _, in := range w.b.Instrs {
+			if in == use {
+				return false
+			}
+		}
+		var succs []*ssa.BasicBlock
+		if iff, ok := lastInstr(w.b).(*ssa.If); ok {
+			cond := condOnEdge(iff, w.pred)
+			for k, br := range []bool{true, false} {
+				if c, isK := constBool(cond); isK && c != br {
+					continue
+				}
+				succs = append(succs, w.b.Succs[k])
+			}
+		} else {
+			succs = w.b.Succs
+		}
+		for _, s2 := range succs {
+			k := bp{s2, nil}
+			if condIsOwnPhi(s2) {
+				k.pred = w.b
+			}
+			if !seen[k] {
+				seen[k] = true
+				work = append(work, bp{s2, w.b})
+			}
+		}
+	}
+	return true
 }
 
 func (b *bctx) ltSeen(v, X ssa.Value, use ssa.Instruction) bool { return b.lt(v, X, use) }
@@ -1252,6 +1320,12 @@ func checkBounds(c *Ctx, rule string, fns []*ssa.Function, table map[string]stri
 				} else {
 					okLow = x.Low == nil || (b.nonNeg(x.Low, x, visit{}) && b.le(x.Low, base, x, visit{}))
 				}
+				if !(okHigh && okLow) && isTransparent(x.Parent()) {
+					// decided in the context of the helper's call sites (see boundsAtCallSites)
+					if h2, l2, dec := sliceBoundsAtCallSites(c, x.Parent(), x); dec {
+						okHigh, okLow, decidedInContext = h2, l2, true
+					}
+				}
 				c.emitBounds(rule, fn, x, what, renderShape(x), okHigh && okLow, table, used, fmt.Sprintf("high<=len:%v low-in-range:%v", okHigh, okLow))
 				continue
 			default:
@@ -1260,6 +1334,13 @@ func checkBounds(c *Ctx, rule string, fns []*ssa.Function, table map[string]stri
 			// string / slice indexing
 			okUp := b.lt(idx, X, in)
 			okLo := b.nonNeg(idx, in, visit{})
+			if !(okUp && okLo) && isTransparent(in.Parent()) {
+				// the expression sits in a helper the code was moved into: decide it in the context of every call site,
+				// with the helper's parameters standing for the arguments handed in
+				if u2, l2, dec := boundsAtCallSites(c, in.Parent(), X, idx); dec {
+					okUp, okLo, decidedInContext = u2, l2, true
+				}
+			}
 			c.emitBounds(rule, fn, in, strings.TrimPrefix(what, "&"), strings.TrimPrefix(renderShape(in.(ssa.Value)), "&"), okUp && okLo, table, used, fmt.Sprintf("index<len:%v index>=0:%v", okUp, okLo))
 		}
 	}
@@ -1276,6 +1357,7 @@ func isByteValue(v ssa.Value) bool {
 }
 
 func (c *Ctx) emitBounds(rule string, fn *ssa.Function, in ssa.Instruction, expr, shape string, ok bool, table map[string]string, used map[string]bool, detail string) {
+	defer func() { decidedInContext = false }()
 	what := "every index/slice expression of the never-panics function set is in range on every path: discharged by a dominating comparison with len of the same operand, loop-counter induction, a library fact, or a reviewed invariant-table entry"
 	owner := fn
 	if in != nil && in.Parent() != nil {
@@ -1287,10 +1369,18 @@ func (c *Ctx) emitBounds(rule string, fn *ssa.Function, in ssa.Instruction, expr
 			c.ob(rule, short(owner.String()), "bounds "+expr, c.P.InstrPos(in), true, what+" [INVARIANT TABLE `"+shape+"`: "+reason+"]", "")
 			return
 		}
+		if decidedInContext {
+			decidedInContext = false
+			c.definite = true // every operand was resolved to the baseline callers' own values
+			c.ob(rule, short(owner.String()), "bounds "+expr, c.P.InstrPos(in), false, what,
+				"`"+expr+"` ("+detail+") is not in range at a call site of the helper it was moved into: no dominating bound check there — an out-of-range value would panic")
+			return
+		}
 		if isTransparent(owner) || involvesHelperResult(in) {
 			// the expression lives in a helper the rules do not know (code was moved): its parameters stand for values of
 			// the caller, which this intra-procedural prover cannot relate; undecided here is reported, not alarmed
 			c.info("%s undecided (not a verdict): `%s` in helper %s, which is not part of the baseline function set", rule, expr, short(owner.String()))
+			c.obR(rule, short(owner.String()), "bounds "+expr, c.P.InstrPos(in), false, what, "`"+expr+"` ("+detail+") lives in a helper unknown to the baseline and could not be shown in range there or from its call sites")
 			return
 		}
 	}
@@ -1454,3 +1544,113 @@ func lengthPreservingArg(call *ssa.Call) (ssa.Value, bool) {
 }
 
 var lenPreserveCache = map[*ssa.Function]int{}
+
+// boundsAtCallSites decides X[idx] of a looked-through helper at each of its static call sites: a parameter of the
+// helper stands for the argument of the call, a constant for itself; anything else is not attempted.
+func boundsAtCallSites(c *Ctx, helper *ssa.Function, X, idx ssa.Value) (okUp, okLo, decided bool) {
+	if curProg == nil || curProg.ti == nil {
+		return false, false, false
+	}
+	sites := curProg.ti.callers[helper]
+	if len(sites) == 0 {
+		return false, false, false
+	}
+	subst := func(v ssa.Value, call *ssa.CallCommon) (ssa.Value, bool) {
+		switch x := v.(type) {
+		case *ssa.Const:
+			return x, true
+		case *ssa.Parameter:
+			for i, prm := range helper.Params {
+				if prm == x && i < len(call.Args) {
+					return call.Args[i], true
+				}
+			}
+		}
+		return nil, false
+	}
+	okUp, okLo = true, true
+	for _, site := range sites {
+		caller := site.Parent()
+		if caller == nil || isTransparent(caller) {
+			return false, false, false // (one level only)
+		}
+		cx, ok1 := subst(X, site.Common())
+		ci, ok2 := subst(idx, site.Common())
+		if !ok1 || !ok2 {
+			return false, false, false
+		}
+		cb := &bctx{c: c, fn: caller, assumeNonNeg: map[*ssa.Parameter]bool{}, assumeLT: map[ltAssume]bool{}}
+		if !cb.lt(ci, cx, site) {
+			okUp = false
+		}
+		if !cb.nonNeg(ci, site, visit{}) {
+			okLo = false
+		}
+	}
+	return okUp, okLo, true
+}
+
+// decidedInContext: the bounds obligation being emitted sits in a looked-through helper but was decided at its call
+// sites (every operand is a constant or an argument of the call): a failure is then a verdict, not a recognition gap.
+var decidedInContext bool
+
+// sliceBoundsAtCallSites is boundsAtCallSites for a slice expression base[low:high] of a looked-through helper.
+func sliceBoundsAtCallSites(c *Ctx, helper *ssa.Function, x *ssa.Slice) (okHigh, okLow, decided bool) {
+	if curProg == nil || curProg.ti == nil {
+		return false, false, false
+	}
+	sites := curProg.ti.callers[helper]
+	if len(sites) == 0 {
+		return false, false, false
+	}
+	subst := func(v ssa.Value, call *ssa.CallCommon) (ssa.Value, bool) {
+		switch y := v.(type) {
+		case nil:
+			return nil, true
+		case *ssa.Const:
+			return y, true
+		case *ssa.Parameter:
+			for i, prm := range helper.Params {
+				if prm == y && i < len(call.Args) {
+					return call.Args[i], true
+				}
+			}
+		}
+		return nil, false
+	}
+	okHigh, okLow = true, true
+	for _, site := range sites {
+		caller := site.Parent()
+		if caller == nil || isTransparent(caller) {
+			return false, false, false
+		}
+		var base, low, high ssa.Value
+		var ok1, ok2, ok3 bool
+		base, ok1 = subst(x.X, site.Common())
+		if x.Low != nil {
+			low, ok2 = subst(x.Low, site.Common())
+		} else {
+			ok2 = true
+		}
+		if x.High != nil {
+			high, ok3 = subst(x.High, site.Common())
+		} else {
+			ok3 = true
+		}
+		if !ok1 || !ok2 || !ok3 || base == nil {
+			return false, false, false
+		}
+		b := &bctx{c: c, fn: caller, assumeNonNeg: map[*ssa.Parameter]bool{}, assumeLT: map[ltAssume]bool{}}
+		if !(high == nil || (b.le(high, base, site, visit{}) && b.nonNeg(high, site, visit{}))) {
+			okHigh = false
+		}
+		if high != nil {
+			if !(low == nil || (b.nonNeg(low, site, visit{}) && b.leq(low, high, base, site))) {
+				okLow = false
+			}
+		} else if !(low == nil || (b.nonNeg(low, site, visit{}) && b.le(low, base, site, visit{}))) {
+			okLow = false
+		}
+	}
+	return okHigh, okLow, true
+}
